@@ -299,7 +299,7 @@ type c17NormArgs struct {
 }
 
 func init() {
-	core.Register("c17load", &core.CheckDef{Real: realC17Load, DriverOp: "c17load", Judge: c17Judge, Timeout: 60 * time.Second})
+	core.Register("c17load", &core.CheckDef{Real: realC17Load, DriverOp: "c17load", Judge: c17Judge, Timeout: 180 * time.Second})
 	core.Register("c17norm", &core.CheckDef{
 		Real: func(raw json.RawMessage) any {
 			var a c17NormArgs
